@@ -1,4 +1,1025 @@
 import OomdModel.Parse
 
+/-!
+Helper lemmas for C12: the scanners of `OomdModel.Parse` (prefix language + rest) against the
+whole-string grammar of `OomdModel.Parse.Spec`.
+-/
+
 namespace OomdProofs.Parse
+open OomdModel.Parse OomdModel.Parse.Spec
+
+/-! ## lists -/
+
+theorem tw_dw (p : Char → Bool) (l : Str) : l.takeWhile p ++ l.dropWhile p = l :=
+  List.takeWhile_append_dropWhile
+
+theorem dropWhile_nil {p : Char → Bool} {l : Str} (h : l.dropWhile p = []) :
+    l.takeWhile p = l ∧ l.all p = true := by
+  have h1 := tw_dw p l
+  rw [h, List.append_nil] at h1
+  refine ⟨h1, ?_⟩
+  rw [← h1]; exact List.all_takeWhile
+
+theorem all_takeWhile_self {p : Char → Bool} {l : Str} (h : l.all p = true) :
+    l.takeWhile p = l ∧ l.dropWhile p = [] := by
+  have hp : ∀ a ∈ l, p a = true := by simpa [List.all_eq_true] using h
+  have h1 := List.takeWhile_append_of_pos (p := p) (l₁ := l) (l₂ := []) hp
+  have h2 := List.dropWhile_append_of_pos (p := p) (l₁ := l) (l₂ := []) hp
+  simp at h1 h2
+  exact ⟨h1, h2⟩
+
+theorem isEmpty_eq_false {α : Type} {l : List α} : l.isEmpty = false ↔ l ≠ [] := by
+  cases l <;> simp
+
+theorem isEmpty_eq_true {α : Type} {l : List α} : l.isEmpty = true ↔ l = [] := by
+  cases l <;> simp
+
+/-! ## integers: scanner ⇔ whole-string numeral -/
+
+theorem scanInt_whole {s : Str} {r : IntScan} (h : scanInt s = some r) (hr : r.rest = []) :
+    intNumeral? s = some r.val := by
+  unfold scanInt at h
+  simp only at h
+  by_cases hd : ((takeSign (s.dropWhile isSpace)).2.takeWhile Char.isDigit).isEmpty = true
+  · simp [hd] at h
+  · simp only [hd] at h
+    simp only [Bool.false_eq_true, if_false, Option.some.injEq] at h
+    subst h
+    simp only at hr
+    obtain ⟨h1, h2⟩ := dropWhile_nil hr
+    rw [h1] at hd
+    unfold intNumeral? signedDigits? digits? IntScan.val
+    simp only [h1]
+    simp [h2, hd]
+
+theorem intNumeral_scan {s : Str} {v : Int} (h : intNumeral? s = some v) :
+    ∃ r, scanInt s = some r ∧ r.rest = [] ∧ v = r.val := by
+  unfold intNumeral? signedDigits? digits? at h
+  simp only at h
+  by_cases hc : (!(takeSign (s.dropWhile isSpace)).2.isEmpty && (takeSign (s.dropWhile isSpace)).2.all Char.isDigit) = true
+  · simp only [hc, if_true, Option.some.injEq] at h
+    simp only [Bool.and_eq_true, Bool.not_eq_true'] at hc
+    obtain ⟨h1, h2⟩ := all_takeWhile_self hc.2
+    refine ⟨⟨(takeSign (s.dropWhile isSpace)).1, natOfDigits (takeSign (s.dropWhile isSpace)).2, []⟩, ?_, rfl, ?_⟩
+    · unfold scanInt
+      simp [h1, h2, hc.1]
+    · simp only [IntScan.val, ← h]
+  · simp [hc] at h
+
+theorem stoSigned_ok {bits : Nat} {s : Str} {v : Int} {rest : Str} :
+    stoSigned bits s = .ok (v, rest) ↔
+      ∃ r, scanInt s = some r ∧ v = r.val ∧ rest = r.rest ∧
+        -((2 : Int) ^ (bits - 1)) ≤ v ∧ v < (2 : Int) ^ (bits - 1) := by
+  unfold stoSigned
+  cases hs : scanInt s with
+  | none => simp
+  | some r =>
+    simp only
+    by_cases hr : r.val < -((2 : Int) ^ (bits - 1)) ∨ r.val ≥ (2 : Int) ^ (bits - 1)
+    · simp only [hr, if_true]
+      constructor
+      · intro h; exact absurd h (by simp)
+      · rintro ⟨r', h1, h2, _, h4, h5⟩
+        simp only [Option.some.injEq] at h1
+        subst h1
+        omega
+    · simp only [hr, if_false, Except.ok.injEq, Prod.mk.injEq]
+      constructor
+      · rintro ⟨h1, h2⟩
+        exact ⟨r, rfl, h1.symm, h2.symm, by omega, by omega⟩
+      · rintro ⟨r', h1, h2, h3, _, _⟩
+        simp only [Option.some.injEq] at h1
+        subst h1
+        exact ⟨h2.symm, h3.symm⟩
+
+theorem whole_ok {α : Type} {r : Except StoErr (α × Str)} {v : α} :
+    whole r = .ok v ↔ r = .ok (v, []) := by
+  unfold whole
+  cases r with
+  | error e => simp
+  | ok p =>
+    obtain ⟨a, rest⟩ := p
+    cases rest with
+    | nil => simp
+    | cons c cs => simp
+
+theorem whole_stoSigned (bits : Nat) (s : Str) (v : Int) :
+    whole (stoSigned bits s) = .ok v ↔
+      inRange (-((2 : Int) ^ (bits - 1))) ((2 : Int) ^ (bits - 1)) (intNumeral? s) = some v := by
+  rw [whole_ok, stoSigned_ok]
+  constructor
+  · rintro ⟨r, h1, h2, h3, h4, h5⟩
+    rw [scanInt_whole h1 h3.symm, ← h2]
+    simp [inRange, h4, h5]
+  · intro h
+    unfold inRange at h
+    cases hn : intNumeral? s with
+    | none => simp [hn] at h
+    | some x =>
+      simp only [hn] at h
+      by_cases hx : -((2 : Int) ^ (bits - 1)) ≤ x ∧ x < (2 : Int) ^ (bits - 1)
+      · simp only [hx, and_self, if_true, Option.some.injEq] at h
+        subst h
+        obtain ⟨r, h1, h2, h3⟩ := intNumeral_scan hn
+        exact ⟨r, h1, h3, h2.symm, hx.1, hx.2⟩
+      · simp [hx] at h
+
+
+/-! ## floating literals: scanner ⇒ whole-string grammar -/
+
+theorem cutAt_append {p : Char → Bool} {a : Str} (ha : ∀ c ∈ a, p c = false) {m : Char} (hm : p m = true)
+    (t : Str) : cutAt p (a ++ m :: t) = (a, some t) := by
+  have hq : ∀ c ∈ a, (fun c => !p c) c = true := by intro c hc; simp [ha c hc]
+  unfold cutAt
+  rw [List.takeWhile_append_of_pos hq, List.dropWhile_append_of_pos hq]
+  simp [hm]
+
+theorem cutAt_none {p : Char → Bool} {a : Str} (ha : ∀ c ∈ a, p c = false) : cutAt p a = (a, none) := by
+  have hq : (a.all fun c => !p c) = true := by
+    simp only [List.all_eq_true]; intro c hc; simp [ha c hc]
+  obtain ⟨h1, h2⟩ := all_takeWhile_self hq
+  unfold cutAt
+  rw [h1, h2]
+
+theorem all_mem {p : Char → Bool} {l : Str} (h : l.all p = true) : ∀ c ∈ l, p c = true := by
+  simpa [List.all_eq_true] using h
+
+/-- what a successful mantissa scan says about the string -/
+theorem scanMant_spec {isD : Char → Bool} {s ip fp r : Str} (h : scanMant isD s = some (ip, fp, r)) :
+    ip.all isD = true ∧ fp.all isD = true ∧ (ip ≠ [] ∨ fp ≠ []) ∧
+      ((s = ip ++ r ∧ fp = []) ∨ s = ip ++ '.' :: (fp ++ r)) := by
+  unfold scanMant at h
+  simp only at h
+  have hs := tw_dw isD s
+  cases hd : s.dropWhile isD with
+  | nil =>
+    rw [hd] at h hs
+    simp only at h
+    by_cases he : (s.takeWhile isD).isEmpty = true
+    · simp [he] at h
+    · simp only [he, Bool.false_eq_true, if_false, Option.some.injEq, Prod.mk.injEq] at h
+      obtain ⟨h1, h2, h3⟩ := h
+      subst h1 h2 h3
+      refine ⟨List.all_takeWhile, by simp, Or.inl ?_, Or.inl ⟨by simpa using hs.symm, rfl⟩⟩
+      intro hc; simp [hc] at he
+  | cons c cs =>
+    rw [hd] at h hs
+    split at h
+    · rename_i r2 heq
+      simp only [List.cons.injEq] at heq
+      obtain ⟨hc, hcs⟩ := heq
+      subst hc hcs
+      by_cases he : ((s.takeWhile isD).isEmpty && (cs.takeWhile isD).isEmpty) = true
+      · simp [he] at h
+      · simp only [he, Bool.false_eq_true, if_false, Option.some.injEq, Prod.mk.injEq] at h
+        obtain ⟨h1, h2, h3⟩ := h
+        subst h1 h2 h3
+        refine ⟨List.all_takeWhile, List.all_takeWhile, ?_, Or.inr ?_⟩
+        · simp only [Bool.and_eq_true, List.isEmpty_iff] at he
+          by_cases h1 : s.takeWhile isD = []
+          · right; intro h2; exact he ⟨h1, h2⟩
+          · left; exact h1
+        · rw [tw_dw isD cs]; exact hs.symm
+    · by_cases he : (s.takeWhile isD).isEmpty = true
+      · simp [he] at h
+      · simp only [he, Bool.false_eq_true, if_false, Option.some.injEq, Prod.mk.injEq] at h
+        obtain ⟨h1, h2, h3⟩ := h
+        subst h1 h2 h3
+        refine ⟨List.all_takeWhile, by simp, Or.inl ?_, Or.inl ⟨hs.symm, rfl⟩⟩
+        intro hc'; simp [hc'] at he
+
+theorem pointNumeral_nodot {isD : Char → Bool} (hdot : isD '.' = false) {ip : Str}
+    (h1 : ip.all isD = true) (hne : ip ≠ []) : pointNumeral? isD ip = some (ip, 0) := by
+  have hm := all_mem h1
+  have hnd : ∀ c ∈ ip, (c == '.') = false := by
+    intro c hc
+    by_cases h : c = '.'
+    · subst h; rw [hm _ hc] at hdot; exact absurd hdot (by simp)
+    · simp [h]
+  have hall : (ip.all fun c => isD c || c == '.') = true := by
+    simp only [List.all_eq_true]; intro c hc; simp [hm c hc]
+  have hcount : ip.count '.' = 0 := by
+    rw [List.count_eq_zero]; intro hc; have := hnd _ hc; simp at this
+  have hany : ip.any isD = true := by
+    cases ip with
+    | nil => exact absurd rfl hne
+    | cons c cs => simp [hm c (by simp)]
+  have hfilter : ip.filter isD = ip := List.filter_eq_self.2 hm
+  have hcut : cutAt (fun c => c == '.') ip = (ip, none) := cutAt_none hnd
+  unfold pointNumeral?
+  simp [hall, hcount, hany, hfilter, hcut]
+
+theorem pointNumeral_dot {isD : Char → Bool} (hdot : isD '.' = false) {ip fp : Str}
+    (h1 : ip.all isD = true) (h2 : fp.all isD = true) (hne : ip ≠ [] ∨ fp ≠ []) :
+    pointNumeral? isD (ip ++ '.' :: fp) = some (ip ++ fp, fp.length) := by
+  have hm1 := all_mem h1
+  have hm2 := all_mem h2
+  have hnd : ∀ (l : Str), (∀ c ∈ l, isD c = true) → ∀ c ∈ l, (c == '.') = false := by
+    intro l hl c hc
+    by_cases h : c = '.'
+    · subst h; rw [hl _ hc] at hdot; exact absurd hdot (by simp)
+    · simp [h]
+  have hall : ((ip ++ '.' :: fp).all fun c => isD c || c == '.') = true := by
+    simp only [List.all_eq_true, List.mem_append, List.mem_cons]
+    rintro c (hc | hc | hc)
+    · simp [hm1 c hc]
+    · simp [hc]
+    · simp [hm2 c hc]
+  have hc0 : ∀ (l : Str), (∀ c ∈ l, isD c = true) → l.count '.' = 0 := by
+    intro l hl; rw [List.count_eq_zero]; intro hc; have := hnd l hl _ hc; simp at this
+  have hcount : (ip ++ '.' :: fp).count '.' = 1 := by
+    rw [List.count_append, List.count_cons_self, hc0 ip hm1, hc0 fp hm2]
+  have hany : (ip ++ '.' :: fp).any isD = true := by
+    rcases hne with h | h
+    · cases ip with
+      | nil => exact absurd rfl h
+      | cons c cs => simp [hm1 c (by simp)]
+    · cases fp with
+      | nil => exact absurd rfl h
+      | cons c cs => simp [hm2 c (by simp)]
+  have hfilter : (ip ++ '.' :: fp).filter isD = ip ++ fp := by
+    rw [List.filter_append, List.filter_cons, hdot, List.filter_eq_self.2 hm1, List.filter_eq_self.2 hm2]
+    simp
+  have hcut : cutAt (fun c => c == '.') (ip ++ '.' :: fp) = (ip, some fp) :=
+    cutAt_append (hnd ip hm1) (by simp) fp
+  unfold pointNumeral?
+  simp [hall, hcount, hany, hfilter, hcut]
+
+theorem scanExp_whole {lo up : Char} {r : Str} {e : Int} (h : scanExp lo up r = (e, [])) :
+    (r = [] ∧ e = 0) ∨ ∃ m t, r = m :: t ∧ (m = lo ∨ m = up) ∧ signedDigits? t = some e := by
+  cases r with
+  | nil =>
+    left
+    simp only [scanExp, Prod.mk.injEq] at h
+    exact ⟨rfl, h.1.symm⟩
+  | cons m t =>
+    right
+    simp only [scanExp] at h
+    by_cases hm : (m == lo || m == up) = true
+    · simp only [hm, if_true] at h
+      by_cases hd : ((takeSign t).2.takeWhile Char.isDigit).isEmpty = true
+      · simp [hd] at h
+      · simp only [hd, Bool.false_eq_true, if_false, Prod.mk.injEq] at h
+        obtain ⟨h1, h2⟩ := dropWhile_nil h.2
+        rw [h1] at hd h
+        refine ⟨m, t, rfl, by simpa using hm, ?_⟩
+        unfold signedDigits? digits?
+        simp only [h2, Bool.and_true]
+        simp only [hd, Bool.not_false, if_true]
+        simp only [← h.1]
+    · simp only [hm, Bool.false_eq_true, if_false, Prod.mk.injEq] at h
+      exact absurd h.2 (by simp)
+
+theorem genLiteral_of_scan {isD : Char → Bool} {lo up : Char}
+    (hd : ∀ c, isD c = true → c ≠ lo ∧ c ≠ up) (hdot : isD '.' = false) (hlo : lo ≠ '.') (hup : up ≠ '.')
+    {b ip fp r : Str} {e : Int} (hm : scanMant isD b = some (ip, fp, r)) (he : scanExp lo up r = (e, [])) :
+    genLiteral? isD lo up b = some (ip ++ fp, fp.length, e) := by
+  obtain ⟨h1, h2, hne, hshape⟩ := scanMant_spec hm
+  have hm1 := all_mem h1
+  have hm2 := all_mem h2
+  -- the mantissa part `M` and the fact that it contains no exponent marker
+  have key : ∃ M : Str, b = M ++ r ∧ pointNumeral? isD M = some (ip ++ fp, fp.length) ∧
+      ∀ c ∈ M, (c == lo || c == up) = false := by
+    rcases hshape with ⟨hb, hf⟩ | hb
+    · subst hf
+      have hip : ip ≠ [] := by rcases hne with h | h; exact h; exact absurd rfl h
+      refine ⟨ip, hb, by simpa using pointNumeral_nodot hdot h1 hip, ?_⟩
+      intro c hc
+      have := hd c (hm1 c hc)
+      simp [this.1, this.2]
+    · refine ⟨ip ++ '.' :: fp, by simpa using hb, pointNumeral_dot hdot h1 h2 hne, ?_⟩
+      intro c hc
+      simp only [List.mem_append, List.mem_cons] at hc
+      rcases hc with hc | hc | hc
+      · have := hd c (hm1 c hc); simp [this.1, this.2]
+      · subst hc; simp [Ne.symm hlo, Ne.symm hup]
+      · have := hd c (hm2 c hc); simp [this.1, this.2]
+  obtain ⟨M, hb, hp, hM⟩ := key
+  rcases scanExp_whole he with ⟨hr, he0⟩ | ⟨m, t, hr, hmk, hsd⟩
+  · subst hr he0
+    simp only [List.append_nil] at hb
+    subst hb
+    unfold genLiteral?
+    simp only [cutAt_none hM, hp]
+  · subst hr
+    have hmark : (fun ch => ch == lo || ch == up) m = true := by
+      rcases hmk with h | h <;> simp [h]
+    unfold genLiteral?
+    rw [hb]
+    simp only [cutAt_append hM hmark t, hp, hsd]
+
+theorem isDigit_ne {c d : Char} (hc : c.isDigit = true) (hd : d.isDigit = false) : c ≠ d := by
+  intro h; subst h; rw [hc] at hd; exact absurd hd (by simp)
+
+theorem isHexDigit_ne {c d : Char} (hc : isHexDigit c = true) (hd : isHexDigit d = false) : c ≠ d := by
+  intro h; subst h; rw [hc] at hd; exact absurd hd (by simp)
+
+theorem decLiteral_of_scan {b ip fp r : Str} {e : Int}
+    (hm : scanMant Char.isDigit b = some (ip, fp, r)) (he : scanExp 'e' 'E' r = (e, [])) :
+    decLiteral? b = some (natOfDigits (ip ++ fp), e - (fp.length : Int)) := by
+  have := genLiteral_of_scan (isD := Char.isDigit) (lo := 'e') (up := 'E')
+    (fun c hc => ⟨isDigit_ne hc (by decide), isDigit_ne hc (by decide)⟩) (by decide) (by decide) (by decide) hm he
+  simp [decLiteral?, this]
+
+theorem hexLiteral_of_scan {b ip fp r : Str} {e : Int}
+    (hm : scanMant isHexDigit b = some (ip, fp, r)) (he : scanExp 'p' 'P' r = (e, [])) :
+    hexLiteral? b = some (natOfHex (ip ++ fp), e - 4 * (fp.length : Int)) := by
+  have := genLiteral_of_scan (isD := isHexDigit) (lo := 'p') (up := 'P')
+    (fun c hc => ⟨isHexDigit_ne hc (by decide), isHexDigit_ne hc (by decide)⟩) (by decide) (by decide) (by decide) hm he
+  simp [hexLiteral?, this]
+
+
+/-! ### the words inf / infinity / nan -/
+
+theorem ciPrefix_whole {pat b : Str} (h : ciPrefix pat b = true) (hd : b.drop pat.length = []) :
+    b.map Char.toLower = pat := by
+  unfold ciPrefix at h
+  have hl : b.length ≤ pat.length := List.drop_eq_nil_iff.1 hd
+  rw [List.take_of_length_le hl] at h
+  simpa using h
+
+theorem ciPrefix_of_lower {pat pat' b : Str} (h : b.map Char.toLower = pat')
+    (hp : pat'.take pat.length = pat) : ciPrefix pat b = true := by
+  unfold ciPrefix
+  rw [List.map_take, h, hp]
+  simp
+
+theorem nanWord_of_scan {b : Str} (h1 : ciPrefix "nan".toList b = true)
+    (h2 : scanNanTail (b.drop 3) = []) : isNanWord b = true := by
+  unfold ciPrefix at h1
+  have hlen3 : "nan".toList.length = 3 := by decide
+  rw [hlen3] at h1
+  have hb := List.take_append_drop 3 b
+  have htl : (b.take 3).length = 3 := by
+    have := congrArg List.length (eq_of_beq h1)
+    simpa using this
+  unfold isNanWord
+  simp only [h1, Bool.true_and]
+  cases hr : b.drop 3 with
+  | nil =>
+    have : b.length = 3 := by
+      have hl : b.length ≤ 3 := List.drop_eq_nil_iff.1 hr
+      have : (b.take 3).length ≤ b.length := by simp [List.length_take]; omega
+      omega
+    simp [this]
+  | cons c t =>
+    rw [hr] at h2
+    unfold scanNanTail at h2
+    split at h2
+    · rename_i t' heq
+      simp only [List.cons.injEq] at heq
+      obtain ⟨hc, ht⟩ := heq
+      subst hc ht
+      split at h2
+      · rename_i u hu
+        subst h2
+        have ht := tw_dw isAlnumU t
+        rw [hu] at ht
+        generalize htw : t.takeWhile isAlnumU = tw at ht
+        have hall : tw.all isAlnumU = true := by rw [← htw]; exact List.all_takeWhile
+        have hb' : b = (b.take 3 ++ '(' :: tw) ++ [')'] := by
+          have h0 : b.take 3 ++ '(' :: t = b := by rw [← hr]; exact hb
+          calc b = b.take 3 ++ '(' :: t := h0.symm
+            _ = (b.take 3 ++ '(' :: tw) ++ [')'] := by rw [← ht]; simp
+        have hd4 : b.drop 4 = t := by
+          have : b.drop 4 = (b.drop 3).drop 1 := by rw [List.drop_drop]
+          rw [this, hr]; rfl
+        have hlast : b.getLast? = some ')' := by
+          rw [hb']; exact List.getLast?_concat
+        have hlen : b.length ≥ 5 := by
+          have := congrArg List.length hb'
+          simp at this; omega
+        have hdl : t.dropLast = tw := by rw [← ht]; simp
+        have hhead : (b.drop 3).head? = some '(' := by rw [hr]; rfl
+        simp only [hlast, hd4, hdl, hall, beq_self_eq_true, Bool.and_true]
+        simp [hlen]
+      · exact absurd h2 (by simp)
+    · exact absurd h2 (by simp)
+
+theorem dec_after_0x_not_whole {x : Char} {t ip fp r : Str} {e : Int}
+    (hx : (x == 'x' || x == 'X') = true)
+    (hm : scanMant Char.isDigit ('0' :: x :: t) = some (ip, fp, r))
+    (he : scanExp 'e' 'E' r = (e, [])) : False := by
+  have hx' : x = 'x' ∨ x = 'X' := by simpa using hx
+  have h0 : Char.isDigit '0' = true := by decide
+  rcases hx' with rfl | rfl
+  · have hnd : Char.isDigit 'x' = false := by decide
+    unfold scanMant at hm
+    simp only [List.takeWhile_cons, List.dropWhile_cons, h0, hnd, if_true, Bool.false_eq_true, if_false] at hm
+    split at hm
+    · rename_i heq; simp at heq
+    · simp only [List.isEmpty_cons, Bool.false_eq_true, if_false, Option.some.injEq, Prod.mk.injEq] at hm
+      obtain ⟨_, _, h3⟩ := hm
+      subst h3
+      simp [scanExp] at he
+  · have hnd : Char.isDigit 'X' = false := by decide
+    unfold scanMant at hm
+    simp only [List.takeWhile_cons, List.dropWhile_cons, h0, hnd, if_true, Bool.false_eq_true, if_false] at hm
+    split at hm
+    · rename_i heq; simp at heq
+    · simp only [List.isEmpty_cons, Bool.false_eq_true, if_false, Option.some.injEq, Prod.mk.injEq] at hm
+      obtain ⟨_, _, h3⟩ := hm
+      subst h3
+      simp [scanExp] at he
+
+theorem hexBody_some {b t : Str} (h : hexBody? b = some t) :
+    ∃ x, b = '0' :: x :: t ∧ (x == 'x' || x == 'X') = true := by
+  unfold hexBody? at h
+  split at h
+  · rename_i c x t'
+    by_cases hc : (c == '0' && (x == 'x' || x == 'X')) = true
+    · simp only [hc, if_true, Option.some.injEq] at h
+      subst h
+      simp only [Bool.and_eq_true, beq_iff_eq] at hc
+      exact ⟨x, by rw [hc.1], by simpa using hc.2⟩
+    · simp [hc] at h
+  · exact absurd h (by simp)
+
+/-- the scanner consumed the whole string ⇒ the string is a floating numeral with that value -/
+theorem scanFloat_whole {s : Str} {v : FVal} (h : scanFloat s = some (v, [])) :
+    floatNumeral? s = some v := by
+  unfold scanFloat at h
+  unfold floatNumeral?
+  simp only at h ⊢
+  generalize takeSign (s.dropWhile isSpace) = st at h ⊢
+  obtain ⟨neg, b⟩ := st
+  simp only at h ⊢
+  have l8 : "infinity".toList.length = 8 := by decide
+  have l3 : "inf".toList.length = 3 := by decide
+  by_cases h1 : ciPrefix "infinity".toList b = true
+  · simp only [h1, if_true, Option.some.injEq, Prod.mk.injEq] at h
+    have := ciPrefix_whole h1 (by rw [l8]; exact h.2)
+    simp [this, ← h.1]
+  · simp only [h1, Bool.false_eq_true, if_false] at h
+    by_cases h2 : ciPrefix "inf".toList b = true
+    · simp only [h2, if_true, Option.some.injEq, Prod.mk.injEq] at h
+      have := ciPrefix_whole h2 (by rw [l3]; exact h.2)
+      simp [this, ← h.1]
+    · simp only [h2, Bool.false_eq_true, if_false] at h
+      have hninf : (b.map Char.toLower == "inf".toList || b.map Char.toLower == "infinity".toList) = false := by
+        apply Bool.eq_false_iff.2
+        intro hc
+        simp only [Bool.or_eq_true, beq_iff_eq] at hc
+        rcases hc with hc | hc
+        · exact h2 (ciPrefix_of_lower hc (by decide))
+        · exact h2 (ciPrefix_of_lower hc (by decide))
+      simp only [hninf, Bool.false_eq_true, if_false]
+      by_cases h3 : ciPrefix "nan".toList b = true
+      · simp only [h3, if_true, Option.some.injEq, Prod.mk.injEq] at h
+        simp [nanWord_of_scan h3 h.2, ← h.1]
+      · simp only [h3, Bool.false_eq_true, if_false] at h
+        have hnn : isNanWord b = false := by
+          unfold isNanWord
+          unfold ciPrefix at h3
+          have hlen3 : "nan".toList.length = 3 := by decide
+          rw [hlen3] at h3
+          rw [Bool.eq_false_iff.2 h3]
+          rfl
+        simp only [hnn, Bool.false_eq_true, if_false]
+        cases hb : hexBody? b with
+        | none =>
+          simp only [hb] at h ⊢
+          cases hm : scanMant Char.isDigit b with
+          | none => simp [hm] at h
+          | some tr =>
+            obtain ⟨ip, fp, r⟩ := tr
+            simp only [hm, Option.some.injEq, Prod.mk.injEq] at h
+            have he : scanExp 'e' 'E' r = ((scanExp 'e' 'E' r).1, []) := by
+              rw [← h.2]
+            rw [decLiteral_of_scan hm he]
+            simp [← h.1]
+        | some t =>
+          simp only [hb] at h ⊢
+          obtain ⟨x, hbx, hx⟩ := hexBody_some hb
+          cases hmh : scanMant isHexDigit t with
+          | some tr =>
+            obtain ⟨ip, fp, r⟩ := tr
+            simp only [hmh, Option.some.injEq, Prod.mk.injEq] at h
+            have he : scanExp 'p' 'P' r = ((scanExp 'p' 'P' r).1, []) := by
+              rw [← h.2]
+            rw [hexLiteral_of_scan hmh he]
+            simp [← h.1]
+          | none =>
+            simp only [hmh] at h
+            cases hm : scanMant Char.isDigit b with
+            | none => simp [hm] at h
+            | some tr =>
+              obtain ⟨ip, fp, r⟩ := tr
+              simp only [hm, Option.some.injEq, Prod.mk.injEq] at h
+              have he : scanExp 'e' 'E' r = ((scanExp 'e' 'E' r).1, []) := by
+                rw [← h.2]
+              rw [hbx] at hm
+              exact (dec_after_0x_not_whole hx hm he).elim
+
+theorem whole_stoFloat {f : Fmt} {s : Str} {v : FVal} (h : whole (stoFloat f s) = .ok v) :
+    floatIn f s = some v := by
+  rw [whole_ok] at h
+  unfold stoFloat at h
+  cases hs : scanFloat s with
+  | none => simp [hs] at h
+  | some p =>
+    obtain ⟨w, rest⟩ := p
+    simp only [hs] at h
+    unfold floatIn
+    cases w with
+    | fin neg m b e =>
+      simp only at h
+      cases hc : classify f m b e with
+      | ok =>
+        simp only [hc, Except.ok.injEq, Prod.mk.injEq] at h
+        obtain ⟨h1, h2⟩ := h
+        subst h2
+        rw [scanFloat_whole hs]
+        simp [hc, ← h1]
+      | overflow => simp [hc] at h
+      | underflow => simp [hc] at h
+    | inf neg =>
+      simp only [Except.ok.injEq, Prod.mk.injEq] at h
+      obtain ⟨h1, h2⟩ := h
+      subst h2
+      rw [scanFloat_whole hs]
+      simp [← h1]
+    | nan =>
+      simp only [Except.ok.injEq, Prod.mk.injEq] at h
+      obtain ⟨h1, h2⟩ := h
+      subst h2
+      rw [scanFloat_whole hs]
+      simp [← h1]
+
+
+/-! ## exact arithmetic -/
+
+theorem pow_gt_of_log2 {base n k : Nat} (hb : 2 ≤ base) (hk : k > Nat.log2 n + 1) : n < base ^ k := by
+  have h1 : n < 2 ^ (Nat.log2 n + 1) := Nat.lt_log2_self
+  have h2 : 2 ^ (Nat.log2 n + 1) ≤ 2 ^ k := Nat.pow_le_pow_right (by omega) (by omega)
+  have h3 : 2 ^ k ≤ base ^ k := Nat.pow_le_pow_left hb k
+  omega
+
+/-- `floorBelow` is `exactFloor` cut at `cap` -/
+theorem floorBelow_eq {cap m base : Nat} {e : Int} {u : Nat} (hb : 2 ≤ base) :
+    floorBelow cap m base e u =
+      if exactFloor m base e u < cap then some (exactFloor m base e u) else none := by
+  unfold floorBelow exactFloor
+  by_cases h0 : m * u = 0
+  · simp only [h0, if_true, Nat.zero_mul, Nat.zero_div]
+    by_cases he : e ≥ 0 <;> simp [he]
+  · simp only [h0, if_false]
+    have hpos : 1 ≤ m * u := Nat.one_le_iff_ne_zero.2 h0
+    by_cases he : e ≥ 0
+    · simp only [he, if_true]
+      by_cases hk : e.toNat > Nat.log2 cap + 1
+      · simp only [hk, if_true]
+        have h1 : cap < base ^ e.toNat := pow_gt_of_log2 hb hk
+        have h2 : base ^ e.toNat ≤ m * u * base ^ e.toNat := Nat.le_mul_of_pos_left _ hpos
+        have : ¬ (m * u * base ^ e.toNat < cap) := by omega
+        simp [this]
+      · simp only [hk, if_false]
+    · simp only [he, if_false]
+      by_cases hk : (-e).toNat > Nat.log2 (m * u) + 1
+      · simp only [hk, if_true]
+        have h1 : m * u < base ^ (-e).toNat := pow_gt_of_log2 hb hk
+        rw [Nat.div_eq_of_lt h1]
+      · simp only [hk, if_false]
+
+theorem floorBelow_mono {cap cap' m base : Nat} {e : Int} {u f : Nat} (hb : 2 ≤ base)
+    (h : floorBelow cap m base e u = some f) (hc : cap ≤ cap') :
+    floorBelow cap' m base e u = some f ∧ f < cap := by
+  rw [floorBelow_eq hb] at h ⊢
+  by_cases hlt : exactFloor m base e u < cap
+  · simp only [hlt, if_true, Option.some.injEq] at h
+    subst h
+    have : exactFloor m base e u < cap' := by omega
+    simp [this, hlt]
+  · simp [hlt] at h
+
+/-! ## sizes -/
+
+theorem scanFloat_base {s : Str} {neg : Bool} {m b : Nat} {e : Int} {r : Str}
+    (h : scanFloat s = some (.fin neg m b e, r)) : b = 10 ∨ b = 2 := by
+  unfold scanFloat at h
+  simp only at h
+  split at h
+  · simp at h
+  · split at h
+    · simp at h
+    · split at h
+      · simp at h
+      · split at h
+        · split at h
+          · simp only [Option.some.injEq, Prod.mk.injEq, FVal.fin.injEq] at h
+            exact Or.inr h.1.2.2.1.symm
+          · split at h
+            · simp at h
+            · simp only [Option.some.injEq, Prod.mk.injEq, FVal.fin.injEq] at h
+              exact Or.inl h.1.2.2.1.symm
+        · split at h
+          · simp at h
+          · simp only [Option.some.injEq, Prod.mk.injEq, FVal.fin.injEq] at h
+            exact Or.inl h.1.2.2.1.symm
+
+/-- `stold` accepted the whole of `num` with a finite value -/
+theorem stold_whole {num : Str} {neg : Bool} {m b : Nat} {e : Int}
+    (h : stold num = .ok (.fin neg m b e, [])) :
+    floatNumeral? num = some (.fin neg m b e) ∧ 2 ≤ b := by
+  unfold stold stoFloat at h
+  cases hs : scanFloat num with
+  | none => simp [hs] at h
+  | some p =>
+    obtain ⟨w, rest⟩ := p
+    simp only [hs] at h
+    cases w with
+    | fin neg' m' b' e' =>
+      simp only at h
+      cases hc : classify x87ext m' b' e' with
+      | ok =>
+        simp only [hc, Except.ok.injEq, Prod.mk.injEq] at h
+        obtain ⟨h1, h2⟩ := h
+        subst h2
+        rw [h1] at hs
+        refine ⟨scanFloat_whole hs, ?_⟩
+        rcases scanFloat_base hs with hb | hb <;> omega
+      | overflow => simp [hc] at h
+      | underflow => simp [hc] at h
+    | inf n => simp at h
+    | nan => simp at h
+
+theorem splitAfter_step (p : Char → Bool) : ∀ (s : Str), s ≠ [] →
+    splitAfter p s =
+      match s.dropWhile (fun c => !p c) with
+      | [] => [s]
+      | u :: t => (s.takeWhile (fun c => !p c) ++ [u]) :: splitAfter p t := by
+  intro s
+  induction s with
+  | nil => intro h; exact absurd rfl h
+  | cons c cs ih =>
+    intro _
+    by_cases hp : p c = true
+    · simp [splitAfter, hp]
+    · have hp' : p c = false := by simpa using hp
+      simp only [splitAfter, hp', Bool.false_eq_true, if_false, Bool.not_false,
+        List.dropWhile_cons_of_pos, List.takeWhile_cons_of_pos]
+      cases hcs : cs with
+      | nil => simp [splitAfter]
+      | cons d ds =>
+        have := ih (by rw [hcs]; simp)
+        rw [hcs] at this
+        rw [this]
+        cases hd : (d :: ds).dropWhile (fun c => !p c) with
+        | nil => simp
+        | cons u t => simp
+
+theorem splitAfter_ne_nil (p : Char → Bool) {s : Str} (h : s ≠ []) : splitAfter p s ≠ [] := by
+  rw [splitAfter_step p s h]
+  cases s.dropWhile (fun c => !p c) <;> simp
+
+/-- bytes of a term from the reading of its number and the unit's multiplier -/
+def termOf (o : Option FVal) (mult : Nat) : Option Nat :=
+  match o with
+  | some (.fin neg m b e) => if neg && m != 0 then none else floorBelow (2 ^ 63) m b e mult
+  | _ => none
+
+theorem termBytes_unit {num : Str} {u : Char} (hu : isUnitCh u = true) :
+    termBytes (num ++ [u]) = termOf (floatNumeral? num) (unitMult u) := by
+  unfold termBytes termOf
+  simp only [List.getLast?_concat, hu, if_true, List.dropLast_concat]
+  cases floatNumeral? num with
+  | none => rfl
+  | some v => cases v <;> rfl
+
+theorem termBytes_nounit {num : Str} (hn : ∀ c ∈ num, isUnitCh c = false) :
+    termBytes num = termOf (floatNumeral? num) 1 := by
+  unfold termBytes termOf
+  cases hl : num.getLast? with
+  | none =>
+    simp only
+    cases floatNumeral? num with
+    | none => rfl
+    | some v => cases v <;> rfl
+  | some c =>
+    have hc : c ∈ num := List.mem_of_getLast? hl
+    simp only [hn c hc, Bool.false_eq_true, if_false]
+    cases floatNumeral? num with
+    | none => rfl
+    | some v => cases v <;> rfl
+
+theorem sizeLoop_sound : ∀ (fuel : Nat) (s : Str) (size sz : Nat), size < 2 ^ 63 →
+    sizeLoop fuel s size = some sz →
+    ∃ total, sumTerms (splitAfter isUnitCh s) = some total ∧ sz = size + total ∧ sz < 2 ^ 63 := by
+  intro fuel
+  induction fuel with
+  | zero => intro s size sz _ h; simp [sizeLoop] at h
+  | succ n ih =>
+    intro s size sz hsize h
+    unfold sizeLoop at h
+    by_cases hs : s.isEmpty = true
+    · simp only [hs, if_true, Option.some.injEq] at h
+      rw [isEmpty_eq_true.1 hs]
+      exact ⟨0, by simp [splitAfter, sumTerms], by omega, by omega⟩
+    · simp only [hs, Bool.false_eq_true, if_false] at h
+      have hsne : s ≠ [] := fun hc => hs (by simp [hc])
+      by_cases hnum : (s.takeWhile (fun c => !isUnitCh c)).isEmpty = true
+      · simp [hnum] at h
+      · simp only [hnum, Bool.false_eq_true, if_false] at h
+        have hnumne : s.takeWhile (fun c => !isUnitCh c) ≠ [] := fun hc => hnum (by simp [hc])
+        cases hst : stold (s.takeWhile (fun c => !isUnitCh c)) with
+        | error err => simp [hst] at h
+        | ok pr =>
+          obtain ⟨v, rest⟩ := pr
+          cases v with
+          | inf ng => simp [hst] at h
+          | nan => simp [hst] at h
+          | fin neg m b e =>
+            simp only [hst] at h
+            by_cases hrest : (!rest.isEmpty) = true
+            · simp [hrest] at h
+            · simp only [hrest, Bool.false_eq_true, if_false] at h
+              have hr : rest = [] := by
+                cases rest with
+                | nil => rfl
+                | cons c cs => simp at hrest
+              subst hr
+              by_cases hneg : (neg && m != 0) = true
+              · simp [hneg] at h
+              · simp only [hneg, Bool.false_eq_true, if_false] at h
+                obtain ⟨hnumeral, hb⟩ := stold_whole hst
+                have hsplit := splitAfter_step isUnitCh s hsne
+                cases htail : s.dropWhile (fun c => !isUnitCh c) with
+                | nil =>
+                  rw [htail] at h hsplit
+                  simp only [List.drop_nil] at h
+                  cases hf : floorBelow (2 ^ 63 - size) m b e 1 with
+                  | none => simp [hf] at h
+                  | some f =>
+                    simp only [hf] at h
+                    obtain ⟨hf63, hflt⟩ := floorBelow_mono hb hf (Nat.sub_le _ _)
+                    obtain ⟨total, ht1, ht2, ht3⟩ := ih [] (size + f) sz (by omega) h
+                    simp only [splitAfter, sumTerms, Option.some.injEq] at ht1
+                    have hall := (dropWhile_nil htail).1
+                    have hn : ∀ c ∈ s, isUnitCh c = false := by
+                      intro c hc
+                      have := all_mem (dropWhile_nil htail).2 c hc
+                      simpa using this
+                    rw [hall] at hnumeral
+                    refine ⟨f, ?_, by omega, by omega⟩
+                    rw [hsplit]
+                    simp only [sumTerms, termBytes_nounit hn, hnumeral, termOf, hneg, Bool.false_eq_true, if_false, hf63]
+                    simp
+                | cons u t =>
+                  rw [htail] at h hsplit
+                  simp only [List.drop_succ_cons, List.drop_zero] at h
+                  have hu : isUnitCh u = true := by
+                    have := List.head?_dropWhile_not (fun c => !isUnitCh c) s
+                    rw [htail] at this
+                    simpa using this
+                  cases hf : floorBelow (2 ^ 63 - size) m b e (unitMult u) with
+                  | none => simp [hf] at h
+                  | some f =>
+                    simp only [hf] at h
+                    obtain ⟨hf63, hflt⟩ := floorBelow_mono hb hf (Nat.sub_le _ _)
+                    obtain ⟨total, ht1, ht2, ht3⟩ := ih t (size + f) sz (by omega) h
+                    refine ⟨f + total, ?_, by omega, ht3⟩
+                    rw [hsplit]
+                    simp only [sumTerms, termBytes_unit hu, hnumeral, termOf, hneg, Bool.false_eq_true, if_false, hf63, ht1]
+
+/-- `Util::parseSize` (fixed): whatever it accepts is a valid size with exactly that value -/
+theorem parseSize_sound {s : Str} {v : Int} (h : parseSize s = some v) : validSize s = some v := by
+  unfold parseSize at h
+  unfold validSize
+  simp only at h ⊢
+  generalize takeSign (List.filter (fun c => !isSpace c) (List.map Char.toLower s)) = st at h ⊢
+  by_cases hb : st.2.isEmpty = true
+  · simp [hb] at h
+  · simp only [hb, Bool.false_eq_true, if_false] at h
+    have hne : st.2 ≠ [] := fun hc => hb (by simp [hc])
+    cases hl : sizeLoop (st.2.length + 1) st.2 0 with
+    | none => simp [hl] at h
+    | some sz =>
+      simp only [hl, Option.some.injEq] at h
+      obtain ⟨total, h1, h2, h3⟩ := sizeLoop_sound _ _ 0 sz (by decide) hl
+      have hpne : (splitAfter isUnitCh st.2).isEmpty = false := by
+        rw [isEmpty_eq_false]; exact splitAfter_ne_nil _ hne
+      have htot : total = sz := by omega
+      subst htot
+      simp [hpne, h1, h3, h]
+
+
+/-! ## size-or-percent -/
+
+theorem wrap64_id {v : Int} (h0 : 0 ≤ v) (h1 : v < 2 ^ 63) : wrap64 v = v := by
+  unfold wrap64
+  rw [Int.emod_eq_of_lt (by omega) (by omega)]
+  omega
+
+/-- the total a percentage refers to: non-negative and small enough for `total * 100` in int64 -/
+def TotalOk (total : Int) : Prop := 0 ≤ total ∧ total * 100 < 2 ^ 63
+
+theorem parseSizeOrPercent_sound {s : Str} {total v : Int} (ht : TotalOk total)
+    (h : parseSizeOrPercent s total = some v) : validSizeOrPercent s total = some v := by
+  unfold parseSizeOrPercent at h
+  unfold validSizeOrPercent
+  by_cases hp : s.getLast? = some '%'
+  · simp only [hp, if_true] at h ⊢
+    cases hst : stoi s.dropLast with
+    | error e => simp [hst] at h
+    | ok pr =>
+      obtain ⟨pct, rest⟩ := pr
+      simp only [hst] at h
+      by_cases hc : (!rest.isEmpty) = true ∨ pct < 0 ∨ pct > 100
+      · rw [if_pos hc] at h; exact absurd h (by simp)
+      · rw [if_neg hc] at h
+        simp only [Option.some.injEq] at h
+        have hrest : rest = [] := by
+          cases rest with
+          | nil => rfl
+          | cons c cs => exact absurd (Or.inl rfl) hc
+        subst hrest
+        have h0 : 0 ≤ pct := by omega
+        have h100 : pct ≤ 100 := by omega
+        obtain ⟨r, h1, h2, h3, _, _⟩ := (stoSigned_ok (bits := 32)).1 hst
+        rw [scanInt_whole h1 h3.symm, ← h2]
+        have hir : inRange 0 101 (some pct) = some pct := by
+          unfold inRange
+          have : 0 ≤ pct ∧ pct < 101 := ⟨h0, by omega⟩
+          simp [this]
+        rw [hir]
+        simp only [Option.some.injEq]
+        have hprod0 : 0 ≤ total * pct := Int.mul_nonneg ht.1 h0
+        have hprod1 : total * pct < 2 ^ 63 := by
+          have : total * pct ≤ total * 100 := Int.mul_le_mul_of_nonneg_left h100 ht.1
+          have := ht.2
+          omega
+        rw [wrap64_id hprod0 hprod1, Int.tdiv_eq_ediv_of_nonneg hprod0] at h
+        exact h
+  · simp only [hp, if_false] at h ⊢
+    cases hst : stoll s with
+    | error e => simp [hst] at h
+    | ok pr =>
+      obtain ⟨mb, rest⟩ := pr
+      simp only [hst] at h
+      obtain ⟨r, h1, h2, h3, _, _⟩ := (stoSigned_ok (bits := 64)).1 hst
+      by_cases hr : rest.isEmpty = true
+      · simp only [hr, if_true] at h
+        have hrest : rest = [] := isEmpty_eq_true.1 hr
+        subst hrest
+        rw [scanInt_whole h1 h3.symm, ← h2]
+        by_cases hc : mb > 2 ^ 43 - 1 ∨ mb < -(2 ^ 43)
+        · rw [if_pos hc] at h; exact absurd h (by simp)
+        · rw [if_neg hc] at h
+          simp only [Option.some.injEq] at h
+          subst h
+          simp only [inRange]
+          have : -(2 : Int) ^ 63 ≤ mb * 2 ^ 20 ∧ mb * 2 ^ 20 < 2 ^ 63 := by omega
+          rw [if_pos this]
+      · simp only [hr, Bool.false_eq_true, if_false] at h
+        have hnone : intNumeral? s = none := by
+          cases hn : intNumeral? s with
+          | none => rfl
+          | some x =>
+            obtain ⟨r', h1', h2', _⟩ := intNumeral_scan hn
+            rw [h1] at h1'
+            simp only [Option.some.injEq] at h1'
+            subst h1'
+            rw [h2'] at h3
+            exact absurd (by simp [h3]) hr
+        simp only [hnone]
+        exact parseSize_sound h
+
+/-! ## every argument kind: what the parser accepts is a valid reading with that value -/
+
+theorem inRange_some {lo hi : Int} {o : Option Int} {v : Int} (h : inRange lo hi o = some v) :
+    o = some v ∧ lo ≤ v ∧ v < hi := by
+  unfold inRange at h
+  cases o with
+  | none => simp at h
+  | some x =>
+    simp only at h
+    by_cases hx : lo ≤ x ∧ x < hi
+    · rw [if_pos hx] at h
+      simp only [Option.some.injEq] at h
+      subst h
+      exact ⟨rfl, hx⟩
+    · rw [if_neg hx] at h; exact absurd h (by simp)
+
+theorem except_map_ok {α β : Type} {f : α → β} {r : Except StoErr α} {v : β}
+    (h : r.map f = .ok v) : ∃ a, r = .ok a ∧ v = f a := by
+  cases r with
+  | error e => simp [Except.map] at h
+  | ok a => simp only [Except.map, Except.ok.injEq] at h; exact ⟨a, rfl, h.symm⟩
+
+theorem parseArg_sound {k : OomdModel.Generated.ArgKind} {fs : Str} {total : Int} {s : Str} {v : Val}
+    (ht : TotalOk total) (h : parseArg k fs total s = .ok v) : validReading k fs total s = some v := by
+  cases k with
+  | int =>
+    simp only [parseArg] at h
+    obtain ⟨a, h1, h2⟩ := except_map_ok h
+    have := (whole_stoSigned 32 s a).1 h1
+    simp only [validReading]
+    simp only [show (32 - 1 : Nat) = 31 from rfl] at this
+    rw [this, h2]; rfl
+  | int64 =>
+    simp only [parseArg] at h
+    obtain ⟨a, h1, h2⟩ := except_map_ok h
+    have := (whole_stoSigned 64 s a).1 h1
+    simp only [validReading]
+    simp only [show (64 - 1 : Nat) = 63 from rfl] at this
+    rw [this, h2]; rfl
+  | ms =>
+    simp only [parseArg] at h
+    obtain ⟨a, h1, h2⟩ := except_map_ok h
+    have := (whole_stoSigned 64 s a).1 h1
+    simp only [validReading]
+    simp only [show (64 - 1 : Nat) = 63 from rfl] at this
+    rw [this, h2]; rfl
+  | double =>
+    simp only [parseArg] at h
+    obtain ⟨a, h1, h2⟩ := except_map_ok h
+    simp only [validReading, whole_stoFloat h1, h2]; rfl
+  | float =>
+    simp only [parseArg] at h
+    obtain ⟨a, h1, h2⟩ := except_map_ok h
+    simp only [validReading, whole_stoFloat h1, h2]; rfl
+  | bool =>
+    simp only [parseArg] at h
+    simp only [validReading]
+    by_cases h1 : (s == "true".toList || s == "True".toList || s == "1".toList) = true
+    · rw [if_pos h1] at h ⊢
+      simp only [Except.ok.injEq] at h
+      rw [h]
+    · rw [if_neg h1] at h ⊢
+      by_cases h2 : (s == "false".toList || s == "False".toList || s == "0".toList) = true
+      · rw [if_pos h2] at h ⊢
+        simp only [Except.ok.injEq] at h
+        rw [h]
+      · rw [if_neg h2] at h; exact absurd h (by simp)
+  | string =>
+    simp only [parseArg, Except.ok.injEq] at h
+    simp [validReading, h]
+  | resource =>
+    simp only [parseArg] at h
+    simp only [validReading]
+    by_cases h1 : (s == "io".toList) = true
+    · rw [if_pos h1] at h ⊢
+      simp only [Except.ok.injEq] at h
+      rw [h]
+    · rw [if_neg h1] at h ⊢
+      by_cases h2 : (s == "memory".toList) = true
+      · rw [if_pos h2] at h ⊢
+        simp only [Except.ok.injEq] at h
+        rw [h]
+      · rw [if_neg h2] at h; exact absurd h (by simp)
+  | cgroup =>
+    simp only [parseArg, Except.ok.injEq] at h
+    simp [validReading, parseCgroup, ← h]
+  | uint =>
+    simp only [parseArg] at h
+    obtain ⟨a, h1, h2⟩ := except_map_ok h
+    unfold parseUnsignedInt at h1
+    cases hw : whole (stoi s) with
+    | error e => simp [hw] at h1
+    | ok x =>
+      simp only [hw] at h1
+      by_cases hx : x < 0
+      · rw [if_pos hx] at h1; exact absurd h1 (by simp)
+      · rw [if_neg hx] at h1
+        simp only [Except.ok.injEq] at h1
+        subst h1
+        have := (whole_stoSigned 32 s x).1 hw
+        simp only [show (32 - 1 : Nat) = 31 from rfl] at this
+        obtain ⟨hn, hy⟩ := inRange_some this
+        simp only [validReading, hn, inRange]
+        have : (0 : Int) ≤ x ∧ x < 2 ^ 31 := ⟨by omega, hy.2⟩
+        rw [if_pos this, h2]; rfl
+  | sizepct =>
+    simp only [parseArg] at h
+    cases hp : parseSizeOrPercent s total with
+    | none => simp [hp] at h
+    | some x =>
+      simp only [hp, Except.ok.injEq] at h
+      simp [validReading, parseSizeOrPercent_sound ht hp, h]
+  | pct100 =>
+    simp only [parseArg] at h
+    cases hw : whole (stoi s) with
+    | error e => simp [hw] at h
+    | ok x =>
+      simp only [hw] at h
+      by_cases hx : x < 0 ∨ x ≥ 100
+      · rw [if_pos hx] at h; exact absurd h (by simp)
+      · rw [if_neg hx] at h
+        simp only [Except.ok.injEq] at h
+        have := (whole_stoSigned 32 s x).1 hw
+        simp only [show (32 - 1 : Nat) = 31 from rfl] at this
+        obtain ⟨hn, hy⟩ := inRange_some this
+        simp only [validReading, hn, inRange]
+        have : (0 : Int) ≤ x ∧ x < 100 := by omega
+        rw [if_pos this, ← h]; rfl
+  | nonempty =>
+    simp only [parseArg] at h
+    simp only [validReading]
+    by_cases he : s.isEmpty = true
+    · rw [if_pos he] at h; exact absurd h (by simp)
+    · rw [if_neg he] at h ⊢
+      simp only [Except.ok.injEq] at h
+      rw [h]
+  | unknown => simp [parseArg] at h
+
 end OomdProofs.Parse
